@@ -67,6 +67,9 @@ type faultCase struct {
 	Observer bool `json:"observer,omitempty"`
 	// ViaBytes: the data is stored through PutBytes instead of Put with a reader (honest source only)
 	ViaBytes bool `json:"via_bytes,omitempty"`
+	// NoVerify: the data is stored through PutNoVerify (the entry point for outputs that need not be reproducible): what
+	// the statement says about a failing or halted Put holds for it just the same
+	NoVerify bool `json:"no_verify,omitempty"`
 	K        int  `json:"k"`    // operation index of the file-operation fault (-1: none)
 	Kind     int  `json:"kind"` // fos.Kind
 	Cut      int  `json:"cut"`
@@ -328,6 +331,8 @@ func runPutInside(d string, c faultCase, inside func()) (ops []fos.Op, putErr er
 		}()
 		if c.ViaBytes && c.Src.Mode == "" {
 			putErr = xc.PutBytes(cachex.ActionID(cachekit.ID(targetID)), data)
+		} else if c.NoVerify {
+			_, _, putErr = xc.PutNoVerify(cachex.ActionID(cachekit.ID(targetID)), src)
 		} else {
 			_, _, putErr = xc.Put(cachex.ActionID(cachekit.ID(targetID)), src)
 		}
@@ -465,6 +470,9 @@ func describe(c faultCase, ops []fos.Op, putErr error, crashed bool) string {
 	if c.ViaBytes {
 		peer += " via=PutBytes"
 	}
+	if c.NoVerify {
+		peer += " via=PutNoVerify"
+	}
 	if c.Observer {
 		peer += " second-handle-stores-and-looks-up-inside"
 	}
@@ -582,6 +590,9 @@ var scenarios = []faultCase{
 	{Prev: -1, Data: 5, Shared: true, Src: srcFault{Mode: "extra", Pass: 2}},
 	// the same through the PutBytes entry point
 	{Prev: -1, Data: 5, ViaBytes: true}, {Prev: 2, Data: 5, ViaBytes: true}, {Prev: -1, Data: 5, Shared: true, ViaBytes: true}, {Prev: 5, Data: 5, ViaBytes: true}, {Prev: -1, Data: 0, Shared: true, ViaBytes: true},
+	// the same through the PutNoVerify entry point, honest and misbehaving sources
+	{Prev: -1, Data: 5, NoVerify: true}, {Prev: -1, Data: 5, Shared: true, NoVerify: true}, {Prev: 5, Data: 5, NoVerify: true},
+	{Prev: -1, Data: 5, Shared: true, NoVerify: true, Src: srcFault{Mode: "err", Pass: 2, At: 2048}}, {Prev: 2, Data: 5, Shared: true, NoVerify: true, Src: srcFault{Mode: "change", Pass: 2, At: 4096}},
 	// another writer is part-way through storing the same content (halts only)
 	{Prev: -1, Data: 5, PeerAt: 1}, {Prev: -1, Data: 5, PeerAt: 2}, {Prev: -1, Data: 5, PeerAt: 2049}, {Prev: -1, Data: 5, PeerAt: 4097}, {Prev: 2, Data: 5, PeerAt: 4096},
 	{Prev: -1, Data: 2, PeerAt: 70}, {Prev: 5, Data: 2, PeerAt: 139}, {Prev: -1, Data: 4, PeerAt: 4096},
@@ -704,9 +715,9 @@ func TestEnumerateFileFaults(t *testing.T) {
 func TestSourceProduct(t *testing.T) {
 	counts := map[string]*cell{}
 	var runs, nt int64
-	bases := []faultCase{{Prev: 4, Data: 5, Unrelated: 1}, {Prev: -1, Data: 5, Unrelated: 1}, {Prev: 5, Data: 5, Damage: "flip", Unrelated: 1}, {Prev: 2, Data: 6, Unrelated: 1}}
+	bases := []faultCase{{Prev: 4, Data: 5, Unrelated: 1}, {Prev: -1, Data: 5, Unrelated: 1}, {Prev: 5, Data: 5, Damage: "flip", Unrelated: 1}, {Prev: -1, Data: 5, Shared: true, NoVerify: true, Unrelated: 1}, {Prev: 2, Data: 6, Unrelated: 1}}
 	if !vt.Thorough() {
-		bases = bases[:3]
+		bases = bases[:4]
 	}
 	idx := 0
 	for _, b := range bases {
@@ -776,6 +787,9 @@ func genFault(t *rapid.T) faultCase {
 	if c.Src.Mode == "" && rapid.IntRange(0, 2).Draw(t, "viabytes") == 1 {
 		c.ViaBytes = true
 	}
+	if !c.ViaBytes && rapid.IntRange(0, 3).Draw(t, "noverify") == 2 {
+		c.NoVerify = true
+	}
 	c.K = rapid.IntRange(-1, 16).Draw(t, "k")
 	c.Kind = int(rapid.SampledFrom(kinds).Draw(t, "kind"))
 	c.Cut = rapid.IntRange(0, 5000).Draw(t, "cut")
@@ -810,6 +824,9 @@ func TestRandomProduct(t *testing.T) {
 		}
 		if c.Observer {
 			cl = append(cl, "second-handle-completes-and-looks-up-inside")
+		}
+		if c.NoVerify {
+			cl = append(cl, "via-PutNoVerify")
 		}
 		return vt.Meta{NonTrivial: c.K >= 3 || c.Src.Mode != "", Classes: cl}
 	}}, vt.N(1500, 20000))
